@@ -41,13 +41,14 @@ type gcPub struct {
 	Topic   string
 	N       int
 	Batch   bool // publish all N messages in one call
+	Late    bool // publishes only after everything else of the scenario (the gate event included) has happened
 	DeadCtx bool // the published messages carry a context that is already cancelled (it is the publisher's business, not the Pub/Sub's)
 }
 
 type gcGate struct {
 	Point string // hook point at which a goroutine is parked
 	ID    string // "m:<k>" k-th message of the scenario, or "s:<name>"
-	Event string // close | close2 | cancel:<sub> | publish:<topic> | subscribe:<topic>
+	Event string // close | close2 | closepair (two overlapping calls) | cancel:<sub> | publish:<topic> | subscribe:<topic>
 }
 
 type gcScenario struct {
@@ -182,7 +183,9 @@ func (x *gcRunner) publishCtx(pname, topic string, n int, batch bool, deadCtx bo
 			msg.UUID = ""
 		}
 		if deadCtx {
-			dctx, dcancel := context.WithCancel(context.Background())
+			// the publisher's context for this message is over (cancelled, and its deadline has passed): that is the publisher's
+			// business, the deliveries live by the Subscribe contexts
+			dctx, dcancel := context.WithDeadline(context.Background(), time.Now().Add(-time.Minute))
 			dcancel()
 			msg.SetContext(dctx)
 		}
@@ -539,6 +542,18 @@ func (x *gcRunner) fire(ev string) {
 		if ev == "close2" {
 			x.closePubSub(fmt.Sprintf("c%d", atomic.AddInt32(&x.closedN, 1)), false)
 		}
+	case ev == "closepair":
+		// two Close calls overlap: the second arrives while the first is at work
+		var wg sync.WaitGroup
+		for i := 0; i < 2; i++ {
+			wg.Add(1)
+			go func() {
+				defer wg.Done()
+				x.closePubSub(fmt.Sprintf("c%d", atomic.AddInt32(&x.closedN, 1)), false)
+			}()
+			time.Sleep(4 * time.Millisecond)
+		}
+		<-waitOr(waitWG(&wg), HangBound)
 	case strings.HasPrefix(ev, "cancel:"):
 		n := strings.TrimPrefix(ev, "cancel:")
 		x.mu.Lock()
@@ -669,6 +684,9 @@ func (x *gcRunner) body() (gateReached bool) {
 	var p1 sync.WaitGroup
 	for _, p := range sc.Pubs {
 		p := p
+		if p.Late {
+			continue
+		}
 		x.pubsWg.Add(1)
 		go func() { defer x.pubsWg.Done(); x.publishCtx(p.Name, p.Topic, p.N, p.Batch, p.DeadCtx) }()
 	}
@@ -761,6 +779,14 @@ func (x *gcRunner) body() (gateReached bool) {
 		}
 	}
 	<-waitOr(waitWG(&p2), HangBound)
+	for _, p := range sc.Pubs {
+		p := p
+		if p.Late {
+			x.pubsWg.Add(1)
+			go func() { defer x.pubsWg.Done(); x.publishCtx(p.Name, p.Topic, p.N, p.Batch, p.DeadCtx) }()
+		}
+	}
+	pubsDone = waitWG(&x.pubsWg)
 	// a blocking Publish must return once every subscription that does not ack has been cancelled
 	obstacle := false
 	for _, sb := range sc.Subs {
